@@ -18,7 +18,8 @@ import (
 
 // If the target program panics, the interpreter panics with this type.
 type targetPanic struct {
-	v value
+	v     value
+	where string // function (and position) where it was raised; diagnostics only
 }
 
 func (p targetPanic) String() string {
@@ -305,7 +306,7 @@ func slice(i *interpreter, x, lo, hi, max value) value {
 		h = int64(Len)
 	}
 	if l < 0 || h < l || m < h || m > int64(Cap) {
-		panic(targetPanic{rtError(fmt.Sprintf("slice bounds out of range [%d:%d:%d] with capacity %d", l, h, m, Cap))})
+		panic(targetPanic{v: rtError(fmt.Sprintf("slice bounds out of range [%d:%d:%d] with capacity %d", l, h, m, Cap))})
 	}
 
 	switch x := x.(type) {
@@ -352,11 +353,11 @@ func binop(i *interpreter, op token.Token, t types.Type, x, y value) value {
 	switch op {
 	case token.QUO, token.REM:
 		if k, ok := kindOf(y); ok && kindIsInt(k) && asUint64x(y) == 0 {
-			panic(targetPanic{rtError("integer divide by zero")})
+			panic(targetPanic{v: rtError("integer divide by zero")})
 		}
 	case token.SHL, token.SHR:
 		if k, ok := kindOf(y); ok && kindSigned(k) && asInt64(y) < 0 {
-			panic(targetPanic{rtError("negative shift amount")})
+			panic(targetPanic{v: rtError("negative shift amount")})
 		}
 	}
 	return binopConcrete(op, t, x, y)
@@ -959,7 +960,7 @@ func typeAssert(i *interpreter, instr *ssa.TypeAssert, itf iface) value {
 
 	if err != "" {
 		if !instr.CommaOk {
-			panic(targetPanic{rtError(err)})
+			panic(targetPanic{v: rtError(err)})
 		}
 		return tuple{zero(instr.AssertedType), false}
 	}
@@ -1090,7 +1091,7 @@ func callBuiltin(caller *frame, callpos token.Pos, fn *ssa.Builtin, args []value
 	case "panic":
 		// ssa.Panic handles most cases; this is only for "go
 		// panic" or "defer panic".
-		panic(targetPanic{args[0]})
+		panic(targetPanic{v: args[0]})
 
 	case "recover":
 		return doRecover(caller)
@@ -1100,7 +1101,7 @@ func callBuiltin(caller *frame, callpos token.Pos, fn *ssa.Builtin, args []value
 		if recv.(*value) == nil {
 			recvType := args[1]
 			methodName := args[2]
-			panic(targetPanic{rtError(fmt.Sprintf("value method (%s).%s called using nil *%s pointer",
+			panic(targetPanic{v: rtError(fmt.Sprintf("value method (%s).%s called using nil *%s pointer",
 				recvType, methodName, recvType))})
 		}
 		return recv
